@@ -673,6 +673,28 @@ func TestCheck(t *testing.T) {
 		})
 	})
 
+	r.Phase("F: texts and New judged while a custom package-level Formatter (bytes only) is installed", func() {
+		old := size.Formatter
+		defer func() { size.Formatter = old }()
+		size.Formatter = func(buf []byte, s size.Size, f size.Format) ([]byte, error) {
+			return append(strconv.AppendUint(buf, uint64(s), 10), " bytes"...), nil
+		}
+		r.Serial(func(w *vkit.W) {
+			for _, text := range []string{"0", "7B", "1kB", "1 000 KiB", "15 EiB", "16 EiB", "0 ZB", "1 ZB", "18446744073709551615", "18446744073709551616", "1 xB", "7 bytes", "", "-1", "1.5kB"} {
+				for _, rule := range []int{0, 1} {
+					judge(Case{Kind: "text", Text: vkit.B(text), Rule: rule}, w)
+					w.EvalRandom(vkit.Hash64("F", text, strconv.Itoa(rule)), true)
+				}
+			}
+			for _, typ := range []string{"uint64", "float64", "int8"} {
+				for _, u := range []string{"", "B", "kB", "EiB", "ZB", "xB"} {
+					judge(Case{Kind: "new", Type: typ, Bits: 1, Unit: vkit.B(u)}, w)
+					w.EvalRandom(vkit.Hash64("Fn", typ, u), true)
+				}
+			}
+		})
+	})
+
 	// Phase E: rapid text grammar
 	r.Phase("E: rapid text grammar with separators, leading zeros, long numbers and negative cases", func() {
 		r.Rapid(t, "rapid-text", 0, r.Pick(40000, 2000000), func(rt *rapid.T, w *vkit.W) vkit.RapidCase {
